@@ -357,6 +357,21 @@ func runC18(r *Run) {
 	ms.Done()
 
 	// ---- pools
+	shd := r.Rule("C18.shared", "apart from the two sync.Pools (whose Get/Put hand an object to one owner at a time) the functions of internal/hmac use no package-level variable that changes after initialisation, unless one mutex guards every access: no second path by which an HMAC object can reach two users", 1)
+	{
+		var fns []*ssa.Function
+		for _, f := range p.LibFuncs() {
+			if f.Pkg == p.Hmac || (f.Parent() != nil && f.Parent().Pkg == p.Hmac) {
+				if f.Name() == "init" && f.Parent() == nil {
+					continue
+				}
+				fns = append(fns, f)
+			}
+		}
+		checkSharedState(r, shd, fns)
+	}
+	shd.Done()
+
 	pl := r.Rule("C18.pool", "AcquireSHA1/PutSHA1 use the SHA-1 pool whose New builds from sha1.New and assert sizes (20,64); the SHA-256 pair likewise with (32,64); Acquire re-keys before returning", 6)
 	checkPools(r, pl, T, resetTo)
 	if nh := p.Fn("newHMAC"); nh != nil {
@@ -765,7 +780,7 @@ func checkPools(r *Run, rc *RuleCtx, T *types.Named, resetTo *ssa.Function) {
 		if ga != nil {
 			okCtor := false
 			for _, f := range p.LibFuncs() {
-				if f.Parent() == nil || f.Pkg != p.Hmac && f.Parent().Pkg != p.Hmac {
+				if f.Parent() == nil && f.Pkg != p.Hmac || f.Parent() != nil && f.Pkg != p.Hmac && f.Parent().Pkg != p.Hmac {
 					continue
 				}
 				// pool New closures live in the package init
@@ -799,7 +814,14 @@ func globalName(g *ssa.Global) string {
 func poolNewOf(p *Prog, f *ssa.Function) *ssa.Global {
 	init := f.Parent()
 	if init == nil {
-		return nil
+		// a named function used as the pool's New: the pool literal is built by the package initialiser
+		if f.Pkg == nil {
+			return nil
+		}
+		init = f.Pkg.Func("init")
+		if init == nil {
+			return nil
+		}
 	}
 	var res *ssa.Global
 	eachInstr(init, func(b *ssa.BasicBlock, i int, in ssa.Instruction) {
